@@ -45,7 +45,9 @@ def run_fmmu_files(tape):
     import ebpfcat.ebpfcat as em
     from ebpfcat.lock import FMMULock
 
-    env = Env(tape, with_fs=True, faults=WireFaults(delay_buckets=(50e-6,)))
+    # (a crowded address map makes FMMULock.__init__ draw hundreds of times: the guard
+    # against endless synchronous loops gets room for that)
+    env = Env(tape, with_fs=True, faults=WireFaults(delay_buckets=(50e-6,)), stall_limit=400_000)
     world, fs = env.world, env.fs
     sched = env.use_scheduler(preempt_bound=tape.draw("sched/bound", 7),
                               preempt_den=[3, 6, 12][tape.draw("sched/den", 3)])
@@ -62,6 +64,38 @@ def run_fmmu_files(tape):
     outcomes = {}
     overlap = [False]
     MAP = "/run/ebpf/sim0.fmmu"
+    crowded = tape.chance("c23/crowded-map", 20)
+    if crowded:
+        # participants that were not the last to leave never release their window: after a
+        # long uptime the map is crowded. All but 1-4 windows are taken, the free ones drawn
+        import os as real_os
+        # (at least as many free windows as there will be sessions: with none left the
+        # unchanged code draws forever, which is not what this property is about)
+        nfree = 13 + tape.draw("c23/nfree", 8)
+        if tape.chance("c23/free-next-to-bit-7", 50):
+            # the lowest byte that is not full has bit 7 taken and a low bit free, the
+            # window after it (bit 0 of the next byte) is free as well
+            b0 = 1 + tape.draw("c23/free-byte", 20)
+            free = {8 * b0 + tape.draw("c23/free-low-bit", 7), 8 * (b0 + 1)}
+            while len(free) < nfree:
+                free.add(8 * (b0 + 2) + tape.draw("c23/free-window-high", 8 * (61 - b0)))
+        else:
+            free = set()
+            while len(free) < nfree:
+                free.add(1 + tape.draw("c23/free-window", 510))
+        bitmap = bytearray(b"\xff" * 64)
+        for a in free:
+            bitmap[a // 8] &= ~(1 << (a % 8)) & 0xff
+        yp, fs.yield_point = fs.yield_point, (lambda *a, **k: None)    # set-up, no process yet
+        try:
+            fs.makedirs("/run/ebpf", exist_ok=True)
+            fd = fs.open(MAP, real_os.O_CREAT | real_os.O_RDWR)
+            fs.pwrite(fd, bytes(bitmap), 0)
+            fs.close(fd)
+        finally:
+            fs.yield_point = yp
+        env.collide.pop("rand/lock", None)       # uniform draws: the pools are all taken
+        world.count("c23/map-crowded-at-start")
 
     def viol(rule, detail, **params):
         if not violations:
@@ -196,7 +230,7 @@ def run(tape, scenario):
     installers = {}      # pid -> True between rename-success and pin
 
     DISPATCHER_RULES = ("dispatcher-not-attached", "program-table-not-reachable",
-                        "pinned-table-is-not-the-dispatchers")
+                        "pinned-table-is-not-the-dispatchers", "participant-holds-another-table")
 
     def viol(rule, detail, **params):
         v = {"rule": rule, "params": params, "detail": detail}
@@ -258,6 +292,21 @@ def run(tape, scenario):
                          f"of the attached dispatcher", crash=scenario == "crash",
                          teardown_race=teardown_race(),
                          install_over_emptied=install_over_emptied())
+                else:
+                    # "reachable": the table each participant holds (and registers its sync
+                    # groups in) is the one the attached dispatcher consults
+                    for u in inside:
+                        try:
+                            mine = kernel.obj(state[u]["table"])
+                        except Exception:
+                            mine = None
+                        if mine is not None and mine not in prog.used_maps:
+                            viol("participant-holds-another-table",
+                                 f"participant {u} is inside run() with a program table that "
+                                 f"is not the attached dispatcher's (at {label} of p{p.pid}; "
+                                 f"last fs ops {fs.oplog[-6:]})", crash=scenario == "crash",
+                                 teardown_race=teardown_race(),
+                                 install_over_emptied=install_over_emptied())
         ets = [(st["ethertype"], u) for u, st in state.items() if st.get("inside")]
         if len({e for e, _ in ets}) != len(ets):
             viol("ethertype-shared", f"live participants' ethertypes {ets}")
@@ -313,15 +362,20 @@ def run(tape, scenario):
         start = [0, 0, 1e-3, 20e-3, 60e-3][tape.draw("c23/start", 5)]
         nwin = 1 + tape.draw("c23/nwin", 8)
 
+        reuse = tape.chance("c23/same-master-object-for-all-rounds", 40)
+
         async def main(loop):
             await asyncio.sleep(start)
+            ec = None
             for r in range(rounds):
-                ec = ParallelEtherCat("sim0")
+                if ec is None or not reuse:
+                    ec = ParallelEtherCat("sim0")
                 ec.ethertype = 0x3000 + tape.draw("c23/ethertype", 4)    # collisions wanted
                 try:
                     async with ec.run():
                         st = state[u] = dict(inside=True, ethertype=ec.ethertype,
-                                             base=ec.fmmu_lock_file.base_addr, addrs=[])
+                                             base=ec.fmmu_lock_file.base_addr, addrs=[],
+                                             table=ec.programs)
                         for _ in range(nwin):
                             st["addrs"].append(ec.get_fmmu_addr())
                         await asyncio.sleep(stays[r])
@@ -359,6 +413,11 @@ def run(tape, scenario):
         except SimStall as e:
             viol("did-not-finish", str(e))
         for m, tn, txt in env.loop_exceptions():
+            if tn is None and str(m).startswith("Task was destroyed"):
+                # a master object that enters run() again starts a second send loop and drops
+                # the first (still pending) one: untidy, but not what this property is about
+                world.count("c23/earlier-sendloop-dropped-while-pending")
+                continue
             if tn not in ("CancelledError",):
                 viol("library-task-died", f"{m}: {tn}: {txt}", exception=tn)
     if aborted:
